@@ -2,7 +2,7 @@
 # compile the Lean lemma files; prints one line per file; exit 0 iff all compile
 cd "$(dirname "$0")"
 rc=0
-for f in Cycle.lean Filter.lean Flat.lean Remove.lean; do
+for f in Cycle.lean Filter.lean Flat.lean Remove.lean Chain.lean; do
   if LEAN_PATH=/opt/veriftools/mathlib4/.lake/build/lib:$(ls -d /opt/veriftools/mathlib4/.lake/packages/*/.lake/build/lib 2>/dev/null | tr '\n' ':') timeout 900 lean "$f" > /tmp/lean-$f.out 2>&1 && ! grep -q "error" /tmp/lean-$f.out; then echo "LEAN OK $f"; else echo "LEAN FAIL $f"; head -20 /tmp/lean-$f.out; rc=1; fi
 done
 exit $rc
